@@ -224,7 +224,7 @@ def state_passes(ctx, g, lp, exe, cls, label):
         ctx.add("traces_validated_against_impl", a[0])
         ctx.add("evaluations", a[1])
     # (2) refused-first pairs
-    cap = 30000 if ctx.tier == "quick" else 150000
+    cap = 30000 if ctx.tier == "quick" else 80000
     scripts, cands = [], []
     nrep = 0
     for qk, path in lp.path.items():
@@ -243,8 +243,8 @@ def state_passes(ctx, g, lp, exe, cls, label):
             nrep += 1
             inter = []
             xs = loops
-            if ctx.tier != "quick" and len(xs) > 120:       # thorough scopes: a seeded sample of the followers
-                xs = sorted(xs, key=lambda x: zlib.crc32(("%d|%s|%s" % (ctx.seed, g.line(l), g.line(x))).encode()))[:120]
+            if ctx.tier != "quick" and len(xs) > 60:       # thorough scopes: a seeded sample of the followers
+                xs = sorted(xs, key=lambda x: zlib.crc32(("%d|%s|%s" % (ctx.seed, g.line(l), g.line(x))).encode()))[:60]
             for x in xs:
                 inter += [l, x]
             for c in range(0, len(inter), 400):
